@@ -111,16 +111,19 @@ func loopPhiCoversAll(idx ssa.Value, s ssa.Value) (bool, string) {
 	if !ok {
 		// range loops index with (phi + 1)
 		if b, ok := idx.(*ssa.BinOp); ok && b.Op == token.ADD && isConstInt(b.Y, 1) {
-			if p, ok := b.X.(*ssa.Phi); ok && len(p.Edges) == 2 {
+			if p, ok := b.X.(*ssa.Phi); ok && len(p.Edges) >= 2 {
+				// one initial edge, every back edge (one per branch of the body that reaches the header) carries idx
 				var init, step ssa.Value
+				nInit := 0
 				for _, e := range p.Edges {
 					if e == idx {
 						step = e
 					} else {
 						init = e
+						nInit++
 					}
 				}
-				if step != nil && isConstInt(init, -1) {
+				if step != nil && nInit == 1 && isConstInt(init, -1) {
 					// guard: idx < len(s)
 					for _, u := range users(idx) {
 						if cmp, ok := u.(*ssa.BinOp); ok && cmp.Op == token.LSS && cmp.X == idx && isLenOf(cmp.Y, s) {
